@@ -1,7 +1,10 @@
+mod calib;
 mod cbrun;
 mod config;
 mod csvrun;
 mod dec;
+mod evgen;
+mod evt;
 mod drift;
 mod fifo;
 mod gen;
@@ -85,8 +88,23 @@ fn main() {
             drift::run(&mut run, &table, args.num("seed", 1), args.get("tier") == Some("thorough"));
             run.finish();
         }
+        "evt" => {
+            let mut run = Runner::new(&args);
+            if let Some(p) = args.get("in") {
+                evgen::replay(&mut run, p, args.num("seed", 1));
+            }
+            evgen::random(&mut run, args.num("seed", 1), args.num("n", 100));
+            let stride = args.num("stride", 64) as usize;
+            if stride > 0 {
+                evgen::sweep(&mut run, &[evt::SIM, 11084], stride);
+            }
+            run.finish();
+        }
         "config" => {
-            let v = config::config();
+            let v = match args.get("data") {
+                Some(d) => config::config_with_calib(d),
+                None => config::config(),
+            };
             std::fs::write(args.req("out"), serde_json::to_string(&v).unwrap()).unwrap();
         }
         _ => {
